@@ -94,6 +94,27 @@ open TieL
 
 attribute [local irreducible] isValid parseVersionInfo incr v1IsValid v1ParseVersionInfo v1Incr formatVersion
 
+/-- the searching-loop spelling of `has_v1_part` (`for part in v1_parts: if … : has_v1_part = True; break`): nothing found -/
+theorem TieL.hasV1Part_of_find_none (pat : Str)
+    (h : List.find? (fun part => isInfix (("{".toList ++ part) ++ "}".toList) pat)
+      ((Gen.v1PartPatterns.map (·.1)) ++ (Gen.v1FullPartFormats.map (·.1))) = none) : hasV1Part pat = false := by
+  have hany : hasV1Part pat = (List.any ((Gen.v1PartPatterns.map (·.1)) ++ (Gen.v1FullPartFormats.map (·.1)))
+      (fun part => isInfix (("{".toList ++ part) ++ "}".toList) pat)) := rfl
+  rw [hany, List.any_eq_false]
+  intro x hx
+  simpa using List.find?_eq_none.mp h x hx
+
+/-- … something found -/
+theorem TieL.hasV1Part_of_find_some (pat part : Str)
+    (h : List.find? (fun part => isInfix (("{".toList ++ part) ++ "}".toList) pat)
+      ((Gen.v1PartPatterns.map (·.1)) ++ (Gen.v1FullPartFormats.map (·.1))) = some part) : hasV1Part pat = true := by
+  have hany : hasV1Part pat = (List.any ((Gen.v1PartPatterns.map (·.1)) ++ (Gen.v1FullPartFormats.map (·.1)))
+      (fun part => isInfix (("{".toList ++ part) ++ "}".toList) pat)) := rfl
+  rw [hany, List.any_eq_true]
+  have hp := List.find?_some h
+  have hm := List.mem_of_find?_eq_some h
+  exact ⟨part, hm, hp⟩
+
 /-- with `-v`, `incr_dispatch` is the same function provided the pattern compiles (new engine) -/
 theorem TieL.incrDispatch_verbose (today : Date) (old pat : Str) (fl : IncrFlags) (maybe_date : Option Date)
     (hv1 : hasV1Part pat = false) (hc : ∃ r, pyV2CompilePattern pat = .ok r) :
@@ -101,11 +122,21 @@ theorem TieL.incrDispatch_verbose (today : Date) (old pat : Str) (fl : IncrFlags
         fl.pinDate maybe_date
       = GenC.incrDispatch today false old pat fl.major fl.minor fl.patch fl.tag fl.tagNum fl.pinIncrements
         fl.pinDate maybe_date := by
-  have hv : (List.any ((Gen.v1PartPatterns.map (·.1)) ++ (Gen.v1FullPartFormats.map (·.1)))
-      (fun part => isInfix (("{".toList ++ part) ++ "}".toList) pat)) = hasV1Part pat := rfl
   obtain ⟨r, hr⟩ := hc
-  unfold GenC.incrDispatch
-  simp only [hv, hv1, hr, Bool.false_eq_true, if_false, if_true]
+  first
+    | -- `has_v1_part = any(… for part in v1_parts)`
+      (have hv : (List.any ((Gen.v1PartPatterns.map (·.1)) ++ (Gen.v1FullPartFormats.map (·.1)))
+          (fun part => isInfix (("{".toList ++ part) ++ "}".toList) pat)) = hasV1Part pat := rfl
+       unfold GenC.incrDispatch
+       simp only [hv, hv1, hr, Bool.false_eq_true, if_false, if_true, Bool.not_false]
+       done)
+    | -- the searching loop
+      (unfold GenC.incrDispatch
+       dsimp only
+       cases hfind : List.find? (fun part => isInfix (("{".toList ++ part) ++ "}".toList) pat)
+           ((Gen.v1PartPatterns.map (·.1)) ++ (Gen.v1FullPartFormats.map (·.1))) with
+       | none => simp only [hr, Bool.false_eq_true, if_false, if_true, Bool.not_false]
+       | some part => rw [hasV1Part_of_find_some pat part hfind] at hv1; cases hv1)
 
 /-- `incr_dispatch` for a new-style pattern, whatever `_VERBOSE` is (given `hverb`) -/
 theorem TieL.incrDispatch_new (today : Date) (b : Bool) (old pat : Str) (fl : IncrFlags) (maybe_date : Option Date)
